@@ -165,25 +165,80 @@ func r144(c *Ctx, r *R) {
 	if f == nil {
 		return
 	}
+	// keptOK: the value v, kept under the given guards, comes from a parse
+	// whose failure was excluded: a (T, error) call with err == nil among
+	// the guards, or a (T, bool) helper of the repository with ok == true
+	// among the guards whose own true answers satisfy the same (recursively)
+	var keptOK func(v ssa.Value, guards []Guard, depth int) (bool, string, bool)
+	keptOK = func(v ssa.Value, guards []Guard, depth int) (ok bool, what string, relevant bool) {
+		call, idx := originCallLocal(v)
+		if call == nil || idx != 0 || depth > 3 {
+			return true, "", false
+		}
+		sig := call.Common().Signature()
+		if sig.Results().Len() != 2 {
+			return true, "", false
+		}
+		has := func(pred func(g Guard) bool) bool {
+			for _, g := range guards {
+				if pred(g) {
+					return true
+				}
+			}
+			return false
+		}
+		switch sig.Results().At(1).Type().String() {
+		case "error":
+			return has(func(g Guard) bool {
+				return gNil(g, false, func(x ssa.Value) bool { cc, i := originCallLocal(x); return cc == call && i == 1 })
+			}), shortName(call), true
+		case "bool":
+			h := call.Common().StaticCallee()
+			if h == nil || h.Blocks == nil || h.Pkg == nil || !isRepoPath(h.Pkg.Pkg.Path()) {
+				return true, "", false
+			}
+			if !has(func(g Guard) bool {
+				ex, isEx := g.Cond.(*ssa.Extract)
+				return isEx && ex.Tuple == ssa.Value(call) && ex.Index == 1 && g.Branch
+			}) {
+				return false, shortName(call), true
+			}
+			rel := false
+			for _, hb := range h.Blocks {
+				if hb == h.Recover || len(hb.Instrs) == 0 {
+					continue
+				}
+				ret, isRet := hb.Instrs[len(hb.Instrs)-1].(*ssa.Return)
+				if !isRet || len(ret.Results) != 2 {
+					continue
+				}
+				if k, isK := constOf(retResult(ret, 1)); isK && (k == nil || !constant.BoolVal(k)) {
+					continue // answers "skip"
+				}
+				ok2, w2, rel2 := keptOK(retResult(ret, 0), guardsOf(hb), depth+1)
+				if rel2 {
+					rel = true
+					if !ok2 {
+						return false, w2, true
+					}
+				}
+			}
+			return true, shortName(call), rel
+		}
+		return true, "", false
+	}
 	n := 0
 	for _, ci := range callsIn(f) {
 		if callName(ci.Common()) != "builtin.append" {
 			continue
 		}
 		for _, e := range variadicElems(ci.Common().Args[1]) {
-			call, idx := originCall(e)
-			if call == nil || idx != 0 {
-				continue
-			}
-			sig := call.Common().Signature()
-			if sig.Results().Len() != 2 || sig.Results().At(1).Type().String() != "error" {
+			ok, what, relevant := keptOK(e, guardsOf(ci.Block()), 0)
+			if !relevant {
 				continue
 			}
 			n++
-			ok := guardedBy(ci.Block(), func(g Guard) bool {
-				return gNil(g, false, func(v ssa.Value) bool { cc, i := originCall(v); return cc == call && i == 1 })
-			})
-			r.Check(ok, "LoadPeerstore", ci.Pos(), "a parsed address is kept only when parsing succeeded", "LoadPeerstore keeps the value of "+shortName(call)+" without its error being nil: an unparsable line yields a nil address and the import crashes")
+			r.Check(ok, "LoadPeerstore", ci.Pos(), "a parsed address is kept only when parsing succeeded", "LoadPeerstore keeps the value of "+what+" without its failure having been excluded: an unparsable line yields a nil address and the import crashes")
 		}
 	}
 	if n == 0 {
